@@ -184,6 +184,8 @@ func runC13(r *fw.Run, p *fw.Program) {
 	c13Alloc(r, p, scope)
 	c13ErrVal(r, p)
 	c13NilRet(r, p, scope)
+	c13ErrZero(r, p, scope)
+	c13Embed(r, p)
 	c13JQType(r, p, scope)
 	c13Idx(r, p, scope)
 	c13ExploreIdx(p, scope)
@@ -939,7 +941,8 @@ func c13Inv(r *fw.Run, p *fw.Program) {
 				}
 				liftWhy = why1 + " " + why2
 			default:
-				if ok, _ := provedOrLifted(p, fn, env, st.Val, st.Block(), needNonNeg, 0); ok {
+				// a lower bound can be lifted to the call sites; an invariant with a finite upper bound needs the interval
+				if ok, _ := provedOrLifted(p, fn, env, st.Val, st.Block(), needNonNeg, 0); ok && want.HiInf {
 					ru.Ok(key, p.Rel(st.Pos()), "non-negative at every call site")
 					return
 				}
